@@ -159,6 +159,14 @@ func c02Ops() []c02Op {
 	}
 	for _, s := range []string{"D", "U"} {
 		s := s
+		ops = append(ops, c02Op{name: "new point identity on A at " + s, do: func(g *c02Rig, st *c02State) (bool, error) {
+			p := data.Point{Type: "extra" + s, Key: "k", Text: "only written at " + s, Value: float64(g.clock % 1000), Time: g.tick(), Origin: "user" + s}
+			st.accept("A/extra"+s+"/k", p)
+			return true, client.SendNodePoints(side(g, s).Nc, "A", data.Points{p}, true)
+		}})
+	}
+	for _, s := range []string{"D", "U"} {
+		s := s
 		ops = append(ops, c02Op{name: "create C at " + s, do: func(g *c02Rig, st *c02State) (bool, error) {
 			if st.cExists {
 				return false, nil
@@ -416,7 +424,8 @@ func c02Body(t *testing.T, depth, devBound int) mc.Body {
 				if outageTomb != "" {
 					key = "tombstone-written-during-outage/" + strings.ReplaceAll(outageTomb, " ", "-")
 				} else if outageDeadWrite != "" {
-					key = "write-to-deleted-node-during-outage/" + strings.ReplaceAll(outageDeadWrite, " ", "-")
+					// one class per side, whatever kind of write it was (point, new identity, edge point, mirror placement)
+					key = "write-below-deleted-node-during-outage/at-" + outageDeadWrite[len(outageDeadWrite)-1:]
 				}
 				out = mc.Outcome{Violation: m + "\nhistory: " + strings.Join(x.History(), "; "), Key: key}
 				return
@@ -452,7 +461,7 @@ func TestC02(t *testing.T) {
 			depth, dev = 4, 1
 		}
 		r.Explore(mc.Config{Name: fmt.Sprintf("histories-d%d-dev%d", depth, dev), Serial: true, SplitDepth: 2, DevBound: dev, StopAfterViolations: 40,
-			Rule: fmt.Sprintf("two real stores linked by the real SyncClient (period 1 s) after an initial catch-up; all histories of %d operations over 20 (point / edge point on a shared node and on the second placement of a mirrored node on a shared node at either side, node creation at either side, delete / undelete at either side, sync disabled = clean outage / re-enabled, link lost abruptly / restored, upstream process restarted, a sync period passes), %d scheduling deviations; then the link is brought up, 5 periods pass, and the device subtrees (deleted nodes included, every point with all fields) must be identical and hold the newest accepted write per identity", depth, dev)},
+			Rule: fmt.Sprintf("two real stores linked by the real SyncClient (period 1 s) after an initial catch-up; all histories of %d operations over 22 (point with an existing / a new identity, edge point on a shared node and on the second placement of a mirrored node on a shared node at either side, node creation at either side, delete / undelete at either side, sync disabled = clean outage / re-enabled, link lost abruptly / restored, upstream process restarted, a sync period passes), %d scheduling deviations; then the link is brought up, 5 periods pass, and the device subtrees (deleted nodes included, every point with all fields) must be identical and hold the newest accepted write per identity", depth, dev)},
 			c02Body(t, depth, dev))
 		r.Assume("outages: the sync node disabled / re-enabled (clean disconnect) and abrupt loss of the sync client's upstream connection (queued deliveries lost, its publishes buffered and flushed on recovery, Disconnected/Reconnected handlers); an upstream restart = its clients lose the link, the store stops and reopens the same file, the clients reconnect")
 		r.Assume("root edge points of the device node are not compared (the code excludes them from synchronisation)")
